@@ -118,6 +118,9 @@ func (g gmodel) dsl() string {
 	for _, n := range names {
 		fmt.Fprintf(&sb, "    define %s: %s\n", n, g.rels[n].text())
 	}
+	if strings.Contains(sb.String(), " with cx") {
+		sb.WriteString("\ncondition cx(x: int) {\n  x < 1\n}\n")
+	}
 	return sb.String()
 }
 
@@ -1258,6 +1261,9 @@ func TestBoundedB4(t *testing.T) {
 		{id: "fixed:wildcards-in-cycle", parents: []string{"doc"}, rels: map[string]rw{
 			"a": {op: "or", kids: []rw{{kind: 'd', restr: []string{"user:*"}}, {kind: 't', rel: "b", ts: "parent"}}},
 			"b": {op: "or", kids: []rw{{kind: 'd', restr: []string{"employee:*"}}, {kind: 'c', rel: "a"}}}}},
+		// a parent type listed twice (plain and conditioned) FOLLOWED by another parent type: every parent type needs its tuple-to-userset edge
+		{id: "fixed:repeated-parent-type", parents: []string{"folder", "folder with cx", "doc"}, rels: map[string]rw{"a": {kind: 'd', restr: []string{"employee"}}, "b": {kind: 't', rel: "a", ts: "parent"}}},
+		{id: "fixed:repeated-restriction", parents: []string{"folder"}, rels: map[string]rw{"a": {kind: 'd', restr: []string{"user", "user with cx", "employee"}}, "b": {kind: 'c', rel: "a"}}},
 		{id: "fixed:repeated-operand", parents: []string{"folder"}, rels: map[string]rw{
 			"a": {kind: 'd', restr: []string{"user"}}, "b": {op: "or", kids: []rw{{kind: 'c', rel: "a"}, {kind: 'c', rel: "a"}}},
 			"c": {op: "but not", kids: []rw{{kind: 'c', rel: "a"}, {kind: 'c', rel: "a"}}}}},
